@@ -8,6 +8,7 @@ import (
 	"os/exec"
 	"path/filepath"
 	"strings"
+	"sync"
 	"syscall"
 	"time"
 
@@ -37,7 +38,7 @@ func (w *World) atlasPaused(point string, n int, act func(), args ...string) (re
 	cmd.Dir = w.Root
 	cmd.Env = []string{
 		"ATLAS_NO_UPGRADE_SUGGESTIONS=1", "ATLAS_NO_UPDATE_NOTIFIER=1",
-		"HOME=" + w.Home, "TMPDIR=" + w.Tmp, "PATH=/usr/bin:/bin", "NO_COLOR=1",
+		"HOME=" + w.Home, "TMPDIR=" + w.Tmp, "PATH=/usr/bin:/bin", "NO_COLOR=1", w.now(),
 		fmt.Sprintf("VERIF_PAUSE_AT=%s@%d@%s", point, n, dir),
 	}
 	var so, se bytes.Buffer
@@ -81,6 +82,123 @@ func (w *World) atlasPaused(point string, n int, act func(), args ...string) (re
 	}
 	if ctx.Err() != nil {
 		simkit.Harnessf("atlas %v: watchdog timeout while paused at %s", args, point)
+	}
+	res = CmdResult{Stdout: so.String(), Stderr: se.String()}
+	if ee, ok := werr.(*exec.ExitError); ok {
+		res.Exit = ee.ExitCode()
+		if ws, ok := ee.Sys().(syscall.WaitStatus); ok && ws.Signaled() {
+			res.Killed = ws.Signal() == syscall.SIGKILL
+			res.Exit = 128 + int(ws.Signal())
+		}
+	} else if werr != nil {
+		simkit.Harnessf("atlas %v: %v", args, werr)
+	}
+	if res.Exit == 2 && strings.Contains(res.Stderr, "goroutine ") && strings.Contains(res.Stderr, "panic:") {
+		res.Panicked = true
+	}
+	os.RemoveAll(dir)
+	return res, reached
+}
+
+// lockedBuf is a buffer the harness may read while the child process still writes to it.
+type lockedBuf struct {
+	mu sync.Mutex
+	b  bytes.Buffer
+}
+
+func (l *lockedBuf) Write(p []byte) (int, error) {
+	l.mu.Lock()
+	defer l.mu.Unlock()
+	return l.b.Write(p)
+}
+
+func (l *lockedBuf) String() string {
+	l.mu.Lock()
+	defer l.mu.Unlock()
+	return l.b.String()
+}
+
+// atlasInterrupted runs the CLI, parks it at the n-th hit of point, sends it SIGINT (what Ctrl-C
+// does), waits until the process has acknowledged the interrupt (it cancels its context first and
+// prints a line afterwards) and only then releases it: the code that runs next runs under a
+// cancelled context, at a position the tape chose. reached reports whether the point was hit.
+func (w *World) atlasInterrupted(point string, n int, args ...string) (res CmdResult, reached bool) {
+	w.ncalls++
+	w.R.Step()
+	dir := filepath.Join(w.Root, fmt.Sprintf("pause%d", w.ncalls))
+	if err := os.MkdirAll(dir, 0o755); err != nil {
+		simkit.Harnessf("pause dir: %v", err)
+	}
+	for _, f := range []string{"hit", "go"} {
+		if err := syscall.Mkfifo(filepath.Join(dir, f), 0o600); err != nil {
+			simkit.Harnessf("mkfifo: %v", err)
+		}
+	}
+	ctx, cancel := context.WithTimeout(context.Background(), 120*time.Second)
+	defer cancel()
+	cmd := exec.CommandContext(ctx, w.Bin, args...)
+	cmd.Dir = w.Root
+	cmd.Env = []string{
+		"ATLAS_NO_UPGRADE_SUGGESTIONS=1", "ATLAS_NO_UPDATE_NOTIFIER=1",
+		"HOME=" + w.Home, "TMPDIR=" + w.Tmp, "PATH=/usr/bin:/bin", "NO_COLOR=1", w.now(),
+		fmt.Sprintf("VERIF_PAUSE_AT=%s@%d@%s", point, n, dir),
+	}
+	var so, se lockedBuf
+	cmd.Stdout, cmd.Stderr = &so, &se
+	if err := cmd.Start(); err != nil {
+		simkit.Harnessf("start: %v", err)
+	}
+	done := make(chan error, 1)
+	go func() { done <- cmd.Wait() }()
+	hit := make(chan bool, 1)
+	go func() {
+		f, err := os.OpenFile(filepath.Join(dir, "hit"), os.O_RDONLY, 0)
+		if err != nil {
+			hit <- false
+			return
+		}
+		buf := make([]byte, 64)
+		f.Read(buf)
+		f.Close()
+		hit <- true
+	}()
+	var werr error
+	select {
+	case <-hit:
+		reached = true
+		// The CLI installs its signal handler on a goroutine started first thing in main; the parked
+		// process gets a moment so that this has certainly happened (a SIGINT before that would kill
+		// it the default way, which is not the scenario). Should it die all the same, the run is
+		// environment trouble and is repeated from its seed, never judged.
+		time.Sleep(50 * time.Millisecond)
+		if err := cmd.Process.Signal(syscall.SIGINT); err != nil {
+			simkit.Harnessf("signal: %v", err)
+		}
+		for i := 0; !strings.Contains(so.String()+se.String(), "interrupt received"); i++ {
+			select {
+			case <-done:
+				simkit.Harnessf("the process exited before it acknowledged the interrupt: atlas %v", args)
+			default:
+			}
+			if i > 4000 {
+				simkit.Harnessf("the interrupt was not acknowledged: atlas %v", args)
+			}
+			time.Sleep(5 * time.Millisecond)
+		}
+		g, err := os.OpenFile(filepath.Join(dir, "go"), os.O_WRONLY, 0)
+		if err != nil {
+			simkit.Harnessf("release: %v", err)
+		}
+		g.Write([]byte("go\n"))
+		g.Close()
+		werr = <-done
+	case werr = <-done:
+		if f, err := os.OpenFile(filepath.Join(dir, "hit"), os.O_WRONLY|syscall.O_NONBLOCK, 0); err == nil {
+			f.Close()
+		}
+	}
+	if ctx.Err() != nil {
+		simkit.Harnessf("watchdog timeout: atlas %v while interrupted at %s", args, point)
 	}
 	res = CmdResult{Stdout: so.String(), Stderr: se.String()}
 	if ee, ok := werr.(*exec.ExitError); ok {
